@@ -929,20 +929,28 @@ impl<'a> Exec<'a> {
     }
 
     fn op_gc(&mut self) {
-        let Some(w) = self.writer.as_ref() else { return };
+        if self.writer.is_none() {
+            return;
+        }
+        // C10 with the writer still alive: a commit has returned, no merge can be running (no policy
+        // merges, no pending explicit merge), nothing is uncommitted. Threads of earlier writers of
+        // this run must be gone BEFORE the collection (they keep their segment metas alive), hence the
+        // quiescence on both sides of it.
+        let exact = !self.fault_profile
+            && self.case.cfg.merge_policy == MergePol::NoMerge
+            && self.pending_merges.is_empty()
+            && self.txn_ops == 0
+            && !self.unwaited_merge
+            && self.out.violations.is_empty();
+        if exact {
+            sched::quiesce();
+        }
+        let w = self.writer.as_ref().unwrap();
         match catch(|| w.garbage_collect_files().wait()) {
             Err(p) => self.api_panic("garbage_collect_files", p),
             Ok(Err(e)) => self.api_err("garbage_collect_files", e.to_string()),
             Ok(Ok(_)) => {
-                // C10 with the writer still alive: a commit has returned, no merge can be running
-                // (no policy merges, no pending explicit merge), nothing is uncommitted, GC has run
-                if !self.fault_profile
-                    && self.case.cfg.merge_policy == MergePol::NoMerge
-                    && self.pending_merges.is_empty()
-                    && self.txn_ops == 0
-                    && !self.unwaited_merge
-                    && self.out.violations.is_empty()
-                {
+                if exact {
                     sched::quiesce();
                     self.out.probe("exact_files_with_live_writer_checked");
                     if let Err(msg) = check_exact_files(&self.dir, &self.index, &BTreeSet::new()) {
